@@ -9,6 +9,14 @@ def fin_and_force(o):
                                                             if f[0] in ("double-down", "force-no-down", "abort", "uaf", "leak")]
 
 
+def keeps_receiving(o):
+    """"the local side keeps receiving until the peer closes": what the peer writes after the local shutdown() is still
+    read and handed to the message callback, and pause / resume requests keep working on the half-closed connection
+    (the independent replay of conn_oracle.pause_oracle does not distinguish a half-closed connection from an open one,
+    which is exactly the claim)"""
+    return conn_oracle.pause_oracle(o) + conn_oracle.read_oracle(o)
+
+
 class Prop(ConnProp):
     id = "C03"
     lean_module = "MuduoVerif.Props.C03"
@@ -28,11 +36,13 @@ class Prop(ConnProp):
                   "callers with the loop thread is not modelled here (C08's TSan scenario `TcpConnection::mix` exercises it).")
     rule = ("histories of <= 40 operations with shutdown()/forceClose()/forceCloseWithDelay() from the loop thread, another "
             "thread or a callback, at backlogs from 0 to 300000 bytes with scripted EAGAIN stalls, followed/preceded by sends, "
-            "peer close, timer firings after destruction; asserts-on/NDEBUG x epoll/poll")
+            "peer close, timer firings after destruction; 14% of the histories contain a pause block (stopRead()/startRead() "
+            "requests, 35% of them on a connection whose local side has called shutdown(): it must keep receiving); "
+            "asserts-on/NDEBUG x epoll/poll")
     trusted_base = TRUSTED
     assumptions = ASSUME
-    oracles = [fin_and_force]
-    profile = {"closes": True}
+    oracles = [fin_and_force, keeps_receiving]
+    profile = {"closes": True, "pause": 0.14}
 
 
 PROP = Prop()
